@@ -12,6 +12,7 @@
 -/
 import Caches.Lemmas.Reach
 import Caches.Properties.C11
+import Caches.Lemmas.Pow2
 set_option linter.unusedSectionVars false
 set_option linter.unusedVariables false
 namespace C05
@@ -98,6 +99,13 @@ theorem tinylfu_queries_total (t : TinyLfu) (hwf : t.WF) (a b : UInt64) (c : Tin
   obtain ⟨e, bb, he, _⟩ := TinyLfu.estimate_spec t hwf a
   obtain ⟨r, hr, _⟩ := TinyLfu.contains_spec t hwf a
   exact ⟨⟨_, he⟩, ⟨_, hr⟩, TinyLfu.compare_total t hwf c a b⟩
+
+/-- the count-min sketch built for any requested width `1 ≤ ctrs ≤ 2^32` (the 32-bit smear of `next_power_of_2`) has
+    four rows, each long enough for every position its mask lets through: the row part of `Sketch.WF` holds by
+    construction, not by inspection of the built value -/
+theorem sketch_geometry (ctrs : Nat) (sch : Scheme) (h1 : 1 ≤ ctrs) (h2 : ctrs ≤ 2 ^ 32) :
+    ∃ s, Sketch.new ctrs sch = some s ∧ s.rows.length = 4 ∧ s.scheme = sch ∧
+      ∀ r ∈ s.rows, Row.WF r ∧ s.mask.toNat / 2 < r.length := Sketch.new_geometry ctrs sch h1 h2
 
 /-- sketch and Bloom indices stay in bounds: the row index of every masked position is inside the row,
     the word index of every probe is inside the bitset -/
